@@ -43,14 +43,17 @@ inductive Event where
 abbrev MaybeResp := MaybeSet Response
 abbrev Handler := Request → String → MaybeResp × List Event
 
+/-- `(self.context,) if self.context else ()` -/
+def MethodDef.ctxExclusion (m : MethodDef) : List String :=
+  match m.ctx with
+  | some c => if c != "" then [c] else []
+  | none => []
+
 /-- Names removed from the signature before binding: the context parameter (`if self.context`) and
 what the validator's predicate selects.  A view method's bound method is validated as it is (only
 the predicate applies). -/
 def MethodDef.exclusions (m : MethodDef) : List String :=
-  if m.view then m.excluded
-  else (match m.ctx with
-    | some c => if c != "" then [c] else []
-    | none => []) ++ m.excluded
+  if m.view then m.excluded else m.ctxExclusion ++ m.excluded
 
 /-- dispatcher.py:62-66: how the context is handed over (functions only; a view receives it through
 its constructor). -/
